@@ -150,6 +150,8 @@ class Unit:
         self.disabled_hints = set()
         self.repo = repo
         self.verif = verif
+        self.work_rel = os.environ.get('VERIF_WORK_REL', '.work')   # set by engine.build_unit
+        self.work = os.path.join(verif, self.work_rel)
         self.out = []
         self.rules = collections.Counter()
         self.dropped = collections.Counter()
